@@ -178,9 +178,15 @@ def _chi2_case(ctx, c):
     from pydl.pydlutils.math import computechi2
     A, b, sq = _gen_chi2(c['gen'])
     n, m = A.shape
-    before = _snap(A, b, sq)
+    Aimpl = A
+    if c['gen'].get('adtype') == 'float32':
+        # templates stored in single precision (pca_solve returns its eigenspectra as float32, template files are float32)
+        # with double-precision data and weights: the SAME numbers, the same least-squares problem
+        Aimpl = A.astype(np.float32)
+        A = Aimpl.astype(np.float64)
+    before = _snap(Aimpl, b, sq)
     try:
-        o = computechi2(b, sq, A)
+        o = computechi2(b, sq, Aimpl)
         # the attributes are computed lazily: the answer must not depend on the order in which they are read
         order = ['acoeff', 'chi2', 'yfit', 'dof', 'covar', 'var']
         np.random.RandomState(c['gen']['nseed'] % (2 ** 31)).shuffle(order)
@@ -192,11 +198,12 @@ def _chi2_case(ctx, c):
     ctx.seen(c)
     ctx.count('chi2:%s:m=%d:%s' % (c['gen']['kind'], m, 'err' if 'err' in impl else 'ok'))
     ctx.count('chi2:zero-weights', int((sq == 0).sum()))
+    ctx.count('chi2:amatrix-dtype:' + str(Aimpl.dtype))
     full = dict(c, input={'A': _lst(A), 'b': _lst(b), 'sqivar': _lst(sq)})
     if 'err' in impl:
         ctx.violate('chi2:exception:' + impl['err'], 'computechi2 raised %s on a full-rank system' % impl['err'], full)
         return
-    if _snap(A, b, sq) != before:
+    if _snap(Aimpl, b, sq) != before:
         ctx.violate('chi2:input-modified', 'computechi2 modified its input arrays', full)
     # --- model
     r = yield {'p': 'C15', 'op': 'chi2', 'n': n, 'm': m, 'b': _bits(b), 'sq': _bits(sq), 'A': _bits(A)}
@@ -322,6 +329,8 @@ def _chi2(ctx, cases=None):
                                                    'kind': ctx.rng.choice(['random', 'random', 'poly']) if m <= 4 else 'random',
                                                    'pzero': ctx.rng.choice([0.0, 0.1, 0.3, 0.5]),
                                                    'signal': ctx.rng.choice([0.0, 1.0, 10.0, 1e3, 1e6, 1e8])}})
+            if ctx.rng.random() < 0.2:
+                cases[-1]['gen']['adtype'] = 'float32'
     _run_stream(ctx, _chi2_case, cases)
 
 
@@ -428,7 +437,15 @@ def _pcomp_case(ctx, c):
     no, nv = x.shape
     before = _snap(x)
     try:
-        o = pcomp(x, standardize=g['standardize'], covariance=g['covariance'])
+        # documented signature pcomp(x, standardize=False, covariance=False): keyword and positional calls are the same call
+        conv = g['nseed'] % 3
+        if conv == 0:
+            o = pcomp(x, standardize=g['standardize'], covariance=g['covariance'])
+        elif conv == 1:
+            o = pcomp(x, g['standardize'], g['covariance'])
+        else:
+            o = pcomp(x, g['standardize'], covariance=g['covariance'])
+        ctx.count('pcomp:call-convention:%s' % ['keywords', 'positional', 'mixed'][conv])
         impl = {'coefficients': np.array(o.coefficients), 'derived': np.array(o.derived), 'variance': np.array(o.variance),
                 'eigenvalues': np.array(o.eigenvalues)}
     except Exception as e:
